@@ -1,5 +1,6 @@
 import MpVerif.Gen.C03Writer
 import MpVerif.C03.LemmasHdr
+import MpVerif.C03.GenIRRead
 /-! # C03 — the hand model equals what the translator extracts from the source (header lines, bounds decision, nput) -/
 namespace MpVerif.C03
 open MpVerif.Gen.C03Writer
@@ -77,5 +78,59 @@ theorem gen_header (h : Hdr) (o : Opts) : HStmt.toksL h o genHeader = wHeader h 
 theorem gen_bounds (L U : Dbl) (k cvar : Nat) : bndTree.eval L U k cvar = wBnd L U k cvar := by
   by_cases hk : k = 0 <;> cases h1 : L.leNegMax <;> cases h2 : U.geMax <;> cases h3 : L.ieeeEq U <;>
     simp [bndTree, BndTree.eval, bndToks, wBnd, hk, h1, h2, h3]
+
+/-- the model's `ReadBounds` is the table-driven one with the table extracted from nl-reader.h -/
+theorem gen_readBounds (cd : Codec) (h : Hdr) (isCon : Bool) :
+    ∀ (n i : Nat) (ts : List Tok), readBndItems cd h isCon i n ts = readBndItemsG cd h isCon readBoundsTable i n ts := by
+  intro n
+  induction n with
+  | zero => intro i ts; simp [readBndItems, readBndItemsG]
+  | succ n ih =>
+    intro i ts
+    match ts with
+    | [] => simp [readBndItems, readBndItemsG]
+    | .bt 0 :: r =>
+      simp only [readBndItems, readBndItemsG, readBoundsTable, List.getElem?_cons_zero, readBndSrc, ih]
+      cases readDouble cd r with
+      | error e => rfl
+      | ok p =>
+        obtain ⟨l, r1⟩ := p
+        simp only
+        cases readDouble cd r1 with
+        | error e => rfl
+        | ok q => rfl
+    | .bt 1 :: r =>
+      simp only [readBndItems, readBndItemsG, readBoundsTable, List.getElem?_cons_succ, List.getElem?_cons_zero, readBndSrc, ih]
+      cases readDouble cd r with
+      | error e => rfl
+      | ok p => rfl
+    | .bt 2 :: r =>
+      simp only [readBndItems, readBndItemsG, readBoundsTable, List.getElem?_cons_succ, List.getElem?_cons_zero, readBndSrc, ih]
+      cases readDouble cd r with
+      | error e => rfl
+      | ok p => rfl
+    | .bt 3 :: r =>
+      simp only [readBndItems, readBndItemsG, readBoundsTable, List.getElem?_cons_succ, List.getElem?_cons_zero, readBndSrc, ih]
+      rfl
+    | .bt 4 :: r =>
+      simp only [readBndItems, readBndItemsG, readBoundsTable, List.getElem?_cons_succ, List.getElem?_cons_zero, readBndSrc, ih]
+      cases readDouble cd r with
+      | error e => rfl
+      | ok p => rfl
+    | .bt 5 :: r =>
+      simp only [readBndItems, readBndItemsG, readBoundsTable, List.getElem?_cons_succ, List.getElem?_cons_zero, ih]
+      rfl
+    | .bt (c + 6) :: r =>
+      simp [readBndItems, readBndItemsG, readBoundsTable]
+    | .ch _ :: _ => simp [readBndItems, readBndItemsG]
+    | .int _ :: _ => simp [readBndItems, readBndItemsG]
+    | .dbl _ :: _ => simp [readBndItems, readBndItemsG]
+    | .sh _ :: _ => simp [readBndItems, readBndItemsG]
+    | .lg _ :: _ => simp [readBndItems, readBndItemsG]
+    | .name _ :: _ => simp [readBndItems, readBndItemsG]
+    | .holl _ :: _ => simp [readBndItems, readBndItemsG]
+    | .vbt _ :: _ => simp [readBndItems, readBndItemsG]
+    | .cmt _ :: _ => simp [readBndItems, readBndItemsG]
+    | .eol :: _ => simp [readBndItems, readBndItemsG]
 
 end MpVerif.C03
